@@ -130,6 +130,8 @@ EDGES = [
     (VM + r"VolatileSlice::check_alignment$", r"Overflow:Sub", r"^\$2,1$", "I",
      "private helper; every caller passes align_of::<T>() >= 1 (C01 R1.5 checks the argument)"),
     (VM + r"VolatileSlice::check_alignment$", r"diverge", r"^panic!\$crate::assert$", "P", "debug_assert that the alignment is a power of two: callers pass align_of::<T>()"),
+    (r".", r"diverge", r"^panic!\$crate::assert$", "P", "debug_assert(align & (align - 1) == 0) with align = align_of::<T>(), which is a power of two for every type",
+     r"Ne\(\(\(mem::align_of<[\w:<> ,]+>\(\) Sub 1\)\.0 BitAnd mem::align_of<[\w:<> ,]+>\(\)\),0\)"),
     (VM + r"VolatileSlice::copy_(to|from)$", r"unwrap", r"^Result::unwrap\(VolatileMemory::get_array_ref\(\$1,0,\(\$1\.size Div mem::size_of<T>\(\)\)\)\)$", "I",
      "count * size_of::<T>() <= self.size <= isize::MAX and offset 0: get_array_ref cannot fail"),
     (VM + r"VolatileSlice::copy_(to|from)$", r"DivisionByZero", r"^\$1\.size / mem::size_of<T>\(\)$", "I",
